@@ -107,6 +107,10 @@ fn header_trip(rep: &Report, m: &ControlMessage, want: &RefVal) {
             Ok(r) if exact_eq(&r.control, want) && r.payload.is_some() == with_payload => {}
             other => { rep.violation("independent header reader does not recover the control tuple", json!({"tuple": want.short(), "with_payload": with_payload, "read": format!("{:?}", other.map(|r| r.control.short())), "bytes": vcore::report::hex(&enc)})); return; }
         }
+        // once more with the cache every earlier message of this thread went through (a connection's cache outlives a message)
+        thread_local! { static SHARED: std::cell::RefCell<erltf::AtomCache> = std::cell::RefCell::new(erltf::AtomCache::new()); }
+        let shared_ok = SHARED.with(|c| { let mut c = c.borrow_mut(); erltf::decode_with_atom_cache(&enc, &mut c).ok().and_then(|(c, _)| ControlMessage::from_term(&c).ok()).map(|m2| exact_eq(&denote(&m2.to_term()), want)).unwrap_or(false) });
+        if !shared_ok { rep.violation("message changed by a trip through the distribution-header encoding", json!({"tuple": want.short(), "with_payload": with_payload, "cache": "the one earlier messages went through"})); }
         let mut cache = erltf::AtomCache::new();
         match erltf::decode_with_atom_cache(&enc, &mut cache) {
             Ok((c, p)) => match ControlMessage::from_term(&c) {
@@ -251,6 +255,18 @@ pub fn run(rep: &Report) -> serde_json::Value {
                     rep.violation("an atom inside a control message changes its name on the way through the wire encoding", json!({"tag": tag, "reason": name.chars().take(40).collect::<String>(), "on_the_wire": on_wire, "parsed_back": parsed_back}));
                 }
             }
+        }
+    }
+    // fields that are long lists of small integers (around the 16-bit length of STRING_EXT) survive both wire forms
+    for n in [65_535usize, 65_536, 65_537, 70_000] {
+        for (tag, pos) in [(2i64, 2usize), (99, 1), (6, 2)] {
+            rep.add("evaluations", 1);
+            let big = OwnedTerm::List((0..n).map(|i| int((i % 256) as i64)).collect());
+            let mut e = vec![int(tag), atom("x"), atom("y"), atom("z")];
+            e[pos] = big;
+            let t = OwnedTerm::Tuple(e);
+            let want = denote(&t);
+            match ControlMessage::from_term(&t) { Ok(m) => { wire_trip(rep, &m, &want); header_trip(rep, &m, &want); } Err(e) => rep.violation("integer-tagged tuple rejected", json!({"tag": tag, "field": format!("list of {} bytes", n), "error": e.to_string()})) }
         }
     }
     // a tag that arrives as a big integer (SMALL_BIG_EXT on the wire) is the same tag
